@@ -151,3 +151,37 @@ def visible_defs(par, use, name):
                     return out
         cur = p
     return []
+
+
+def side_of(par, node, atom):
+    """True / False / None: does `node` execute when `atom(cond) -> +1 (test holds) / -1 (negated test)` is true or false?
+    Handles `if test {A} else {B}`, `if !test {B} else {A}` and the early-return form `if test { return .. } B`."""
+    from synq import walk
+    cur = node
+    while id(cur) in par:
+        p_ = par[id(cur)]
+        if p_.get("k") == "if":
+            pol = atom(p_["c"])
+            if pol:
+                in_then = p_.get("t") is cur or _contains(p_.get("t"), cur)
+                in_else = p_.get("e") is not None and (p_.get("e") is cur or _contains(p_.get("e"), cur))
+                if in_then or in_else:
+                    return (pol > 0) == in_then
+        if p_.get("k") == "block":
+            idx = next((i for i, st in enumerate(p_["s"]) if st is cur or _contains(st, cur)), None)
+            for st in p_["s"][:idx or 0]:
+                if st.get("k") == "if" and st.get("e") is None and atom(st["c"]) and _diverges(st["t"]):
+                    return not (atom(st["c"]) > 0)
+        cur = p_
+    return None
+
+
+def polarity_of(text):
+    """atom for side_of: +1 for `text`, -1 for `!text` (parentheses ignored)"""
+    from synq import show
+
+    def atom(c):
+        s_ = show(c, maxdepth=8).replace("(", "").replace(")", "").strip()
+        t_ = text.replace("(", "").replace(")", "")
+        return 1 if s_ == t_ else -1 if s_ == "!" + t_ else 0
+    return atom
